@@ -133,6 +133,8 @@ def enumerate_named_functions(contexts=("module", "def", "method")):
         "defdoc": "def {n}({p}):\n\t    'a doc string with lambda z: z and )'\n\t    return {p}.m{k}{c}",
         "defcmt": "def {n}({p}):  # lambda q: q.n9 )\n\t    return {p}.m{k}{c}",
         "lam": "{n} = lambda {p}: {p}.m{k}{c}",
+        # a multi-line string whose continuation lines are indented less than the def (they are data, not code)
+        "defstr": "def {n}({p}):\n\t    return {p}.m{k}.s(\"\"\"a\n  bcdefghijkl\nxyzuvwrstq\"\"\"){c}",
     }
     calls = {
         "one": "r = ds.{o1}(f1)",
